@@ -643,7 +643,7 @@ def _check_table(ct, vmods, real, model, ttext, keys, u, fails, counters, do_val
 
     def allowed_real(vals):
         """real filter_constraint_table + is_allowed_combination, checked against the definition"""
-        key = tuple(sorted(vals.items()))
+        key = frozenset(vals.items())
         if key in cache:
             return cache[key]
         counters["queries"] += 1
@@ -652,16 +652,13 @@ def _check_table(ct, vmods, real, model, ttext, keys, u, fails, counters, do_val
         got_idx = []
         ok = isinstance(flt, list)
         if ok:
-            pos = 0
-            for ent in flt:  # must be the matching columns themselves, in table order
-                while pos < len(real) and real[pos] is not ent:
-                    pos += 1
-                if pos == len(real):
+            for ent in flt:  # must be the containing columns themselves (an equal copy is tolerated, order is not compared)
+                hit = [i for i, col in enumerate(real) if col is ent and i not in got_idx] or [i for i, col in enumerate(real) if col == ent and i not in got_idx]
+                if not hit:
                     ok = False
                     break
-                got_idx.append(pos)
-                pos += 1
-        if not ok or got_idx != exp_idx:
+                got_idx.append(hit[0])
+        if not ok or sorted(got_idx) != exp_idx:
             fails.add("table-filter", {"what": "filter_constraint_table does not return exactly the columns containing the given values",
                                        "inputs": dict(inputs0, values=dict(vals)), "expected": exp_idx, "observed": repr(flt)})
         ia = ct.is_allowed_combination(real, dict(vals))
@@ -672,10 +669,17 @@ def _check_table(ct, vmods, real, model, ttext, keys, u, fails, counters, do_val
         return ia
 
     r = len(keys)
+    has_any = any(c is ANY for col in model for c in col.values())
     for ki, k in enumerate(keys + [nokey]):
         others = [x for x in keys if x != k]
-        # every partial assignment of the other keys (None = not chosen)
-        for choice in itertools.product([None] + list(range(u)), repeat=len(others)):
+        if k is nokey:
+            # a key no column lists: nothing chosen, and one complete assignment
+            choices = [(None,) * r, tuple(range(r))] if u >= r else [(None,) * r]
+            choices = [tuple(None if c is None else c % u for c in ch) for ch in choices]
+        else:
+            # every partial assignment of the other keys (None = not chosen)
+            choices = itertools.product([None] + list(range(u)), repeat=len(others))
+        for choice in choices:
             vals = dict((o, c) for o, c in zip(others, choice) if c is not None)
             counters["avf"] += 1
             S = ct.allowed_values_for(real, k, dict(vals))
@@ -683,17 +687,16 @@ def _check_table(ct, vmods, real, model, ttext, keys, u, fails, counters, do_val
                 fails.add("table-allowed_values_for-type", {"what": "allowed_values_for did not return a ValueSet", "inputs": dict(inputs0, key=k, values=vals),
                                                             "expected": "ValueSet", "observed": repr(S)})
                 continue
+            mv = _m_values_for(model, k, vals) if (has_catch_all or has_any) else None
             for v in range(u + 1):
                 lhs = v in S
                 ext = dict(vals)
                 ext[k] = v
-                rhs_model = _m_allowed(model, ext)
                 rhs_real = allowed_real(ext)
                 if has_catch_all:
-                    mv = _m_values_for(model, k, vals)
                     exp = True if mv is ANY else (v in mv)
                 else:
-                    exp = rhs_model  # the property's equivalence
+                    exp = _m_allowed(model, ext)  # the property's equivalence
                 if lhs is not exp or (not has_catch_all and lhs is not rhs_real):
                     fails.add("table-allowed_values_for", {
                         "what": "v in allowed_values_for(T, k, vals) differs from is_allowed_combination(T, vals + {k: v})" if not has_catch_all
@@ -701,16 +704,17 @@ def _check_table(ct, vmods, real, model, ttext, keys, u, fails, counters, do_val
                         "inputs": dict(inputs0, key=k, values=vals, v=v), "expected": exp,
                         "observed": {"v in allowed_values_for": lhs, "is_allowed_combination(extended)": rhs_real}})
             # any_value substitution as documented: the substitute is returned exactly when AnyValue is allowed
-            mv = _m_values_for(model, k, vals)
-            sub = ct.ValueSet(12345)
-            S2 = ct.allowed_values_for(real, k, dict(vals), sub)
-            if (S2 is sub) is not (mv is ANY) or isinstance(S, ct.AnyValue) is not (mv is ANY):
-                fails.add("table-any_value", {"what": "allowed_values_for(any_value=...) substitutes exactly when AnyValue is allowed",
-                                              "inputs": dict(inputs0, key=k, values=vals), "expected": mv is ANY,
-                                              "observed": {"substituted": S2 is sub, "default result is AnyValue": isinstance(S, ct.AnyValue)}})
-        # also whole partial assignments including k itself (filter / is_allowed only)
-    for choice in itertools.product([None] + list(range(u)), repeat=r):
-        allowed_real(dict((o, c) for o, c in zip(keys, choice) if c is not None))
+            if has_any or has_catch_all or not vals:
+                if mv is None:
+                    mv = _m_values_for(model, k, vals)
+                counters["avf"] += 1
+                sub = ct.ValueSet(12345)
+                S2 = ct.allowed_values_for(real, k, dict(vals), sub)
+                if (S2 is sub) is not (mv is ANY) or isinstance(S, ct.AnyValue) is not (mv is ANY):
+                    fails.add("table-any_value", {"what": "allowed_values_for(any_value=...) substitutes exactly when AnyValue is allowed",
+                                                  "inputs": dict(inputs0, key=k, values=vals), "expected": mv is ANY,
+                                                  "observed": {"substituted": S2 is sub, "default result is AnyValue": isinstance(S, ct.AnyValue)}})
+    allowed_real({})
 
     if do_validator and not has_catch_all:
         assertions, level_constraints, VNA, State = vmods
@@ -823,17 +827,18 @@ def _part_tables(rep, tier, seed):
     # (ncols, nkeys, universe size, symmetric reduction, sample or None)
     for nk in (1, 2, 3):
         plain.append((1, nk, 4, False, None))
-    plain += [(2, 1, 4, False, None), (2, 2, 4, False, None), (2, 3, 3, False, None)]
+    plain += [(2, 1, 4, False, None)]
     if thorough:
-        plain += [(2, 3, 4, True, None), (3, 2, 4, True, None), (3, 3, 3, False, 400000), (3, 3, 2, False, None)]
+        plain += [(2, 2, 4, False, None), (2, 3, 3, False, None), (2, 3, 4, False, 250000), (2, 2, 5, True, None), (3, 2, 3, True, None), (3, 2, 4, False, 300000),
+                  (3, 3, 2, False, None), (3, 3, 3, False, 100000)]
     else:
-        plain += [(2, 3, 4, False, 48000), (3, 2, 3, True, None)]
+        plain += [(2, 2, 4, True, None), (2, 3, 2, False, None), (2, 3, 3, False, 40000), (2, 3, 4, False, 6000), (3, 2, 3, True, None)]
     sp = ("ANY", "MISSING")
-    special += [(1, 2, 3, False, None), (2, 1, 3, False, None), (2, 2, 3, False, None), (2, 3, 2, False, None), (3, 2, 2, False, None)]
+    special += [(1, 2, 3, False, None), (2, 1, 3, False, None), (2, 2, 3, False, None)]
     if thorough:
-        special += [(2, 3, 3, False, 600000), (3, 3, 2, False, 600000), (3, 2, 3, False, None)]
+        special += [(2, 3, 2, False, None), (3, 2, 2, False, None), (2, 3, 3, False, 150000), (3, 3, 2, False, 150000), (3, 2, 3, False, 200000)]
     else:
-        special += [(2, 3, 3, False, 32000)]
+        special += [(2, 3, 2, True, None), (3, 2, 2, True, None), (2, 3, 3, False, 6000)]
 
     def run(configs, specials):
         jobs, descr = [], []
@@ -862,7 +867,7 @@ def _part_tables(rep, tier, seed):
         "Tables without catch-all columns, every column listing every key, every cell any subset of the universe (built as values, as maximal ranges, or mixed): "
         + "; ".join(descr) + ". For every table: every partial assignment vals of the keys (values in the universe), every key k not in vals and a key no column lists, "
         "every v in the universe plus one value outside it: v in allowed_values_for(T, k, vals) == is_allowed_combination(T, vals + {k: v}) == (some column contains the "
-        "combination); filter_constraint_table returns exactly the containing columns (same objects, table order); and the real assert_level_constraint, run with the "
+        "combination); filter_constraint_table returns exactly the containing columns; and the real assert_level_constraint, run with the "
         "enumerated table in place of LEVEL_CONSTRAINTS, on every sequence of values for the keys in the fixed order k0, k1, k2 (distinct keys, values in the universe): a value is "
         "accepted and recorded iff the prefix ending with it is an allowed combination, and a rejected value leaves the recorded values unchanged",
         agg["tables"], not sampled, distinct=agg["nontrivial"],
